@@ -396,6 +396,17 @@ func (g *Group) scanSubGroupHandler(realval reflect.Value, sfield *reflect.Struc
 		return true, nil
 	}
 
+	// commands and positional arguments belong to a command. The fields of a
+	// group are options only: a struct tagged as one of these would be read as
+	// a set of plain options of the group, or dropped
+	for _, key := range []string{"command", "positional-args"} {
+		if len(mtag.Get(key)) != 0 {
+			return true, newErrorf(ErrInvalidTag,
+				"field `%s' is tagged `%s', which cannot be used inside a group",
+				sfield.Name, key)
+		}
+	}
+
 	return false, nil
 }
 
